@@ -106,6 +106,36 @@ link_write_short!(c14_h14b_short_write_4, 4);
 link_write_short!(c14_h14b_short_write_8, 8);
 link_write_short!(c14_h14b_short_write_n12, 12);
 
+/// C14 H14e: consecutive messages through ONE link (a longer one first, then shorter ones, then an empty one):
+/// the stream receives exactly the concatenation - nothing of an earlier message is sent again, nothing is held back.
+#[kani::proof]
+#[kani::unwind(16)]
+#[kani::stub(std::io::Error::is_interrupted, never_interrupted)]
+fn c14_h14e_consecutive_writes() {
+    let data: [u8; 7] = kani::any();
+    let mut a = Vec::with_capacity(4);
+    a.push(data[0]); a.push(data[1]); a.push(data[2]); a.push(data[3]);
+    let mut b = Vec::with_capacity(2);
+    b.push(data[4]); b.push(data[5]);
+    let e: Vec<u8> = Vec::new();
+    let mut c = Vec::with_capacity(1);
+    c.push(data[6]);
+    let mut l = Link::new(Stream::Raw(PrefixWriter::<12>::new()));
+    let r1 = l.write(&a);
+    let r2 = l.write(&b);
+    let r3 = l.write(&e);
+    let r4 = l.write(&c);
+    let w = l.verif_raw();
+    if r1.is_ok() && r2.is_ok() && r3.is_ok() && r4.is_ok() {
+        assert!(w.out_len == 7, "four messages of 4, 2, 0 and 1 bytes: exactly 7 bytes reach the stream");
+        let mut i = 0;
+        while i < 7 { assert!(w.out[i] == data[i], "the stream receives the messages back to back, in order"); i += 1; }
+        kani::cover!(true, "all four writes succeeded");
+    }
+    std::mem::forget(r1); std::mem::forget(r2); std::mem::forget(r3); std::mem::forget(r4);
+    std::mem::forget(a); std::mem::forget(b); std::mem::forget(e); std::mem::forget(c);
+}
+
 /// C14 H14d: zero-then-progress: one write call (index ZERO_AT) accepts nothing,
 /// the others a solver-chosen non-empty prefix: Ok => every byte delivered.
 macro_rules! link_write_zero {
